@@ -101,7 +101,7 @@ where
     }
 
     fn open_file(&self, path: &str) -> VfsResult<Box<dyn SeekAndRead + Send>> {
-        match T::get(path.split_at(1).1) {
+        match T::get(normalize_path(path)?) {
             None => Err(VfsErrorKind::FileNotFound.into()),
             Some(file) => Ok(Box::new(Cursor::new(file.data))),
         }
